@@ -348,24 +348,35 @@ def rule_bracket_extents(ctx: Ctx, rule: str) -> None:
     names = _literal_alternatives(rx.parse(rp.pattern, rp.flags).node)
     if not names:
         raise AnalysisError('RE_POSIX: class names not extractable')
-    desc = {k: scanner_description(v.node) for k, v in members.items()}
-    for k, d in desc.items():
-        if not d['stages']:
-            raise AnalysisError(f'{k}._sequence: no bracket prologue found')
-    probes = [']x]', '!]x]', '^]x]', '-]', '[]', '!-]', '^-]', 'a]', '!a]', '^a]', '[x]', '-x]', '!^]', '^!]',
-              '[:alpha:]x]', '![:alpha:]|]', 'a[:digit:]|]', '[:alpha:]]', '[:alpha', '[:nope:]x]', '^[:space:]-]']
-    ref = {p: _extent(desc['WcParse'], p, names) for p in probes}
+    from . import seqrules
+    where = {'WcParse': WP, 'WcSplit': WP, '_GlobSplit': 'glob'}
+    reads = {k: seqrules.prologue_reads(repo, where[k], k) for k in members}
+    loop_posix = {}
+    for k in members:
+        rows, scan, _every = seqrules.loop_table(repo, where[k], k)
+        loop_posix[k] = any(seqrules._char(p, scan) == '[' and any(e[0] == 'call' and (e[1].endswith('._handle_posix') or e[1] == 'i.match') for e in p.events)
+                            for p in rows)
+    ref = reads['WcParse']
+    if sum(1 for v in ref.values() if len(v) == 1) < 30:
+        raise AnalysisError('WcParse._sequence: the prologue table does not determine what is consumed for most first-character pairs')
+
+    def show(c1: str, c2: str, v: set) -> str:
+        return f'`[{c1}{c2}`: ' + ' / '.join(f'{n} read, POSIX class tried after read {px}' if px else f'{n} read' for n, px in sorted(v, key=repr))
     for name in ('WcSplit', '_GlobSplit'):
         fi = members[name]
-        got = {p: _extent(desc[name], p, names) for p in probes}
-        diff = [p for p in probes if got[p] != ref[p]]
+        diff = [k2 for k2 in sorted(ref) if reads[name][k2] != ref[k2]]
+        if loop_posix[name] != loop_posix['WcParse']:
+            diff.append(('loop', 'posix'))
         ctx.ob(rule, f'{fi.module}:{name}._sequence/closing-bracket-agreement', not diff, repo.loc(fi.module, fi.node),
-               f'closes every probe body where WcParse._sequence does ({_show_desc(desc["WcParse"])})',
-               f'{_show_desc(desc[name])}; disagrees after `[` + {diff}' if diff else f'agrees on all {len(probes)} probes', note='F12',
+               'before the scan loop the same characters are consumed as in WcParse._sequence for every pair of first characters out of ! ^ [ - ] x '
+               '(so the scan for the closing `]` starts at the same place), and the loop skips POSIX classes iff the parser\'s loop does',
+               'agrees on all 36 pairs' if not diff else ('the scan loops differ in POSIX awareness' if diff[0] == ('loop', 'posix') else
+                                                          f'{show(*diff[0], reads[name][diff[0]])}; WcParse: {show(*diff[0], ref[diff[0]])}'), note='F12',
                witness="fnmatch.translate('[]|]', flags=SPLIT) and translate('[[:alpha:]|]', flags=SPLIT) yield two patterns although the `|` is inside a bracket expression")
-    ctx.count('bracket_probes', len(probes))
-    ctx.ob(rule, 'siblings:WcSplit._sequence==_GlobSplit._sequence', desc['WcSplit'] == desc['_GlobSplit'], repo.loc('glob', members['_GlobSplit'].node),
-           'identical prologues', f"{_show_desc(desc['WcSplit'])} vs {_show_desc(desc['_GlobSplit'])}",
+    ctx.count('bracket_probes', len(ref))
+    same = reads['WcSplit'] == reads['_GlobSplit'] and loop_posix['WcSplit'] == loop_posix['_GlobSplit']
+    ctx.ob(rule, 'siblings:WcSplit._sequence==_GlobSplit._sequence', same, repo.loc('glob', members['_GlobSplit'].node),
+           'identical consumption before the scan loop', 'identical' if same else 'the two splitters consume differently',
            witness='glob and globmatch would split the same pattern differently')
     # member-by-member comparison of the two splitting scanners, modulo the declared difference (path mode)
     for meth in ('parse_extend',):
